@@ -379,6 +379,29 @@ Lemma formulate_only_callers_arguments :
   = ["return_t_hat=False/n=1"; "return_t_hat=False/n=2"; "return_t_hat=True/n=1"; "return_t_hat=True/n=2"].
 Proof. split; vm_compute; reflexivity. Qed.
 
+(* the marker given as a plain FUNCTION, formulated right after a call with another function of the
+   same qualified name; widths unfolded one level: only Sum, rhoX(., ., .) and FormFactor(., ., ., Lx, dx)
+   occur - no rhoDecoy (the earlier caller's function), no width left folded, no phase-space class *)
+Definition chk_hist (h : head) (args : list expr) : bool :=
+  match h with
+  | HOther g =>
+      if String.eqb g "Sum" then true
+      else if String.eqb g "rhoX" then Nat.eqb (length args) 3
+      else if String.eqb g "FormFactor"
+           then Nat.eqb (length args) 5 && arg_is args 3 "Lx" && arg_is args 4 "dx"
+      else false
+  | _ => true
+  end.
+Definition hist_ok (it : string * list expr) : bool :=
+  let trees := snd it in
+  forallb (all_nodes chk_hist) trees && Nat.ltb 0 (total (is_head "rhoX") trees)
+  && Nat.ltb 0 (total (is_head "FormFactor") trees) && negb (existsb (occursb "rhoDecoy") trees).
+Lemma formulate_history_only_callers_function :
+  forallb hist_ok gen_marked_hist = true /\
+  map fst gen_marked_hist
+  = ["return_t_hat=False/n=1"; "return_t_hat=False/n=2"; "return_t_hat=True/n=1"; "return_t_hat=True/n=2"].
+Proof. split; vm_compute; reflexivity. Qed.
+
 (* ---------- the width below threshold: what width_real_nonneg excludes ---------- *)
 (* gen_edw is EnergyDependentWidth(s, m0, g0, ma, mb, L, d, phsp_factor=rhoX).evaluate():
    Gamma(s) = g0 rho(s) F(s)^2 / (rho(m0^2) F(m0^2)^2).  If the phase-space factor is real at s but
